@@ -243,6 +243,7 @@ def _run_query_once(q, logdir, uws, t0):
         cmd = cbmc_cmd(q, solver, uws)
         env = dict(os.environ)
         if solver == 'cvc5int': env['PATH'] = os.path.join(VERIF, 'vlib', 'shim') + ':' + env['PATH']
+        tmpd = os.path.join(logdir, 'tmp'); os.makedirs(tmpd, exist_ok=True); env['TMPDIR'] = tmpd     # scratch of the solvers lives (and dies) with the build directory
         lf = os.path.join(logdir, '%s.%s.log' % (re.sub(r'[^A-Za-z0-9_.-]', '_', q.name), solver))
         tstart = time.time()
         with open(lf, 'w') as f:
@@ -267,6 +268,12 @@ def _run_query_once(q, logdir, uws, t0):
                         try: os.killpg(p.pid, 9)
                         except Exception: p.kill()
                         p.wait(); rc = -9
+        # cbmc writes the formula for an external SAT solver to $TMPDIR/external-sat<pid>.*.cnf (gigabytes for the large
+        # queries) and does not remove it when it is killed at the time-out: remove it here
+        try:
+            import glob
+            for fcnf in glob.glob(os.path.join(env.get('TMPDIR', '/tmp'), 'external-sat%d.*' % p.pid)): os.remove(fcnf)
+        except Exception: pass
         out = open(lf, errors='replace').read()
         r = parse_cbmc(out); r['rc'] = rc; r['solver'] = solver; r['log'] = lf; r['wall_s'] = round(time.time() - tstart, 2)
         r['rss_mb'] = rss // 1024 if rss else None
